@@ -15,11 +15,16 @@ ALPHAS = {
     'FULL': space.FULL,
     'FULL_NO3': space.FULL_NO3,
     'S4': space.S4 + space.U,
+    'REQ': space.alphabet('AND', 'XOR', 'GT', 'NOT'),
 }
 
 
 def plan(tier):
-    t = [{'kind': 'ops'}, {'kind': 'tables'}]
+    t = [{'kind': 'ops'}, {'kind': 'tables'}, {'kind': 'wideops'}]
+    for pat in space.DEEP_PATTERNS:
+        for L in space.DEEP_LENGTHS[tier]:
+            for st in ('fwd', 'rev'):
+                t.append({'kind': 'deep', 'pattern': pat, 'L': L, 'storage': st})
     fams = [(0, 1, 'FULL', 0), (1, 1, 'FULL', 0), (1, 2, 'FULL', 1), (2, 1, 'FULL', 1),
             (2, 2, 'FULL', 1), (3, 1, 'FULL', 1), (2, 1, 'S4', 1), (0, 2, 'FULL', 1)]
     if tier == 'thorough':
@@ -27,6 +32,10 @@ def plan(tier):
     for n, k, a, split in fams:
         for tk in space.tasks(n, k, ALPHAS[a], split):
             tk.update(kind='circ', alpha=a)
+            t.append(tk)
+    for n, k, a in ((2, 2, 'REQ'), (1, 2, 'FULL'), (2, 1, 'FULL'), (3, 2, 'REQ')):
+        for tk in space.tasks(n, k, ALPHAS[a], 1):
+            tk.update(kind='requery', alpha=a)
             t.append(tk)
     # storage permutations / relabelings
     for tk in space.tasks(2, 2, ALPHAS['FULL'], 1):
@@ -41,7 +50,7 @@ def plan(tier):
 
 def describe(tier):
     return {
-        'rule': 'E1: every circuit of F(n,k,A) (all gate types/arities, operand tuples with '
+        'rule': 'requery: on F(2,2)/F(3,2) over {AND,XOR,GT,NOT}, F(1,2,FULL), F(2,1,FULL): one query with a value vector, one public mutation (input order reversed by order_inputs / set_inputs, two gate or input labels exchanged, first gate rebuilt under its label), the same query again - for five entry points, every vector; wide: every n-ary type with 255..300 operands over a stated Boolean operand alphabet; deep: chains of 1200/3000 (thorough 7000) gates in six gate-type patterns, both storage orders, every entry point x all 8 assignments; E1: every circuit of F(n,k,A) (all gate types/arities, operand tuples with '
         'repeats, order significant) x every output policy (none, all sequences of <=2 nodes '
         'incl. inputs and repeats, all sinks) x all 2^n assignments x every evaluation entry '
         'point (for n+k<=3 also on copy.deepcopy / pickle copies of the circuit object); operator tables on all Boolean operand vectors (arity<=4 for n-ary); storage '
@@ -481,16 +490,184 @@ def check_perm(n, gates, acc):
     acc.outcome('perm_tt', tuple(ref))
 
 
+def check_deep(acc, pattern, L, storage):
+    """Every evaluation entry point on a chain of L gates (deeper than the interpreter's recursion limit),
+    every assignment of its three inputs, both storage orders."""
+    c, net = space.deep_chain(pattern, L, storage)
+    ref = net.tables()
+    n = len(net.inputs)
+    asg = refmodel.assignments(n)
+    case = {'deep_chain': pattern, 'length': L, 'storage': storage}
+    acc.states += 1
+    acc.traces += 1
+    olabs = net.outputs
+    exp_out = [ref[o] for o in olabs]
+
+    def bad_bool(v, want):
+        return not _is_bool(v) or v != want
+
+    ok, gtt = guarded(acc, 'get_gates_truth_table', case, c.get_gates_truth_table)
+    acc.transitions += 1
+    if ok:
+        for l in net.gates:
+            if list(gtt.get(l, ())) != refmodel.tt_rows(ref[l], n):
+                acc.violation('get_gates_truth_table/wrong-value', case, f'gate {l}')
+                break
+    ok, tt = guarded(acc, 'get_truth_table', case, c.get_truth_table)
+    acc.transitions += 1
+    if ok and [list(r) for r in tt] != [refmodel.tt_rows(v, n) for v in exp_out]:
+        acc.violation('get_truth_table/wrong-value', case, '')
+    for j, x in enumerate(asg):
+        a = dict(zip(net.inputs, x))
+        want = [bool((v >> j) & 1) for v in exp_out]
+        acc.transitions += 5 + len(olabs)
+        ok, full = guarded(acc, 'evaluate_full_circuit', case, c.evaluate_full_circuit, dict(a))
+        if ok and (len(full) != len(net.gates) or any(bad_bool(full.get(l), bool((ref[l] >> j) & 1)) for l in net.gates)):
+            acc.violation('evaluate_full_circuit/wrong-value', case, f'assignment {x}')
+        ok, got = guarded(acc, 'evaluate', case, c.evaluate, list(x))
+        if ok and (list(got) != want or not all(_is_bool(v) for v in got)):
+            acc.violation('evaluate/wrong-value', case, f'x={x} got {got} expected {want}')
+        ok, res = guarded(acc, 'evaluate_circuit', case, c.evaluate_circuit, dict(a))
+        if ok and any(bad_bool(res.get(o), w) for o, w in zip(olabs, want)):
+            acc.violation('evaluate_circuit/wrong-value', case, f'x={x}')
+        ok, res = guarded(acc, 'evaluate_circuit_outputs', case, c.evaluate_circuit_outputs, dict(a))
+        if ok and any(bad_bool(res.get(o), w) for o, w in zip(olabs, want)):
+            acc.violation('evaluate_circuit_outputs/wrong-value', case, f'x={x} got {[res.get(o) for o in olabs]!r}')
+        mid = f'c{L // 3}'
+        ok, res = guarded(acc, 'evaluate_circuit', case, lambda: c.evaluate_circuit(dict(a), outputs=[mid, olabs[0]]))
+        if ok and (bad_bool(res.get(mid), bool((ref[mid] >> j) & 1)) or bad_bool(res.get(olabs[0]), want[0])):
+            acc.violation('evaluate_circuit/wrong-value', case, f'x={x} outputs=[{mid}, {olabs[0]}]')
+        for i, w in enumerate(want):
+            ok, v = guarded(acc, 'evaluate_at', case, c.evaluate_at, list(x), i)
+            if ok and bad_bool(v, w):
+                acc.violation('evaluate_at/wrong-value', case, f'x={x} output #{i}: {v!r}')
+    acc.outcome('gate_tt_signature', ('deep', pattern, L, tuple(exp_out)))
+    acc.sample(case)
+
+
+REQUERY_MUTATIONS = ('reverse-inputs(order_inputs)', 'reverse-inputs(set_inputs)', 'swap-two-gate-labels', 'rebuild-first-gate-as-NOR/NOT', 'swap-input-labels')
+
+
+def _mutate(c, n, gates, labs, how):
+    """a public mutation that changes what some gate computes for a fixed value vector; returns False if it
+    does not apply to this circuit"""
+    from cirbo.core.circuit import gate as G
+
+    if how.startswith('reverse-inputs'):
+        if n < 2:
+            return False
+        if 'order_inputs' in how:
+            c.order_inputs(list(reversed(c.inputs)))
+        else:
+            c.set_inputs(list(reversed(c.inputs)))
+        return True
+    if how == 'swap-two-gate-labels':
+        if len(gates) < 2:
+            return False
+        a, b = labs[n], labs[n + 1]
+        c.rename_gate(a, 'zz_swap')
+        c.rename_gate(b, a)
+        c.rename_gate('zz_swap', b)
+        return True
+    if how == 'swap-input-labels':
+        if n < 2:
+            return False
+        a, b = labs[0], labs[1]
+        c.rename_gate(a, 'zz_swap')
+        c.rename_gate(b, a)
+        c.rename_gate('zz_swap', b)
+        return True
+    # rebuild the first gate under its label with another type (possible when nobody uses it yet is not
+    # required: remove users' dependence by going through outputs only)
+    t, ops = gates[0]
+    if c.get_gate_users(labs[n]):
+        return False
+    outs = list(c.outputs)
+    c.set_outputs([])
+    c.remove_gate(labs[n])
+    new_t = G.NOR if len(ops) >= 2 else G.NOT if len(ops) == 1 else G.ALWAYS_TRUE if t != 'ALWAYS_TRUE' else G.ALWAYS_FALSE
+    c.emplace_gate(labs[n], new_t, tuple(labs[o] for o in ops))
+    c.set_outputs(outs)
+    return True
+
+
+def check_requery(n, gates, acc):
+    """query(x); mutate the circuit; the SAME query(x) again, nothing else in between: the second answer must
+    be that of the circuit as it is now (every entry point that takes a value vector / assignment)."""
+    k = len(gates)
+    labs = space.labels(n, k)
+    outs = tuple(dict.fromkeys((n + k - 1, n, 0) if n else (n + k - 1, n)))
+    outs = tuple(o for o in outs if o < n + k)
+    asg = refmodel.assignments(n)
+    for how in REQUERY_MUTATIONS:
+        for x in asg:
+            for entry in ('evaluate_at', 'evaluate', 'evaluate_circuit', 'evaluate_full_circuit', 'evaluate_circuit_outputs'):
+                c = space.build(n, gates, outs)
+                case = lambda: {**space.spec_json(n, gates, outs), 'requery': entry, 'x': list(x), 'mutation': how}  # noqa: E731
+
+                def ask(cc):
+                    a = dict(zip(cc.inputs, x))
+                    if entry == 'evaluate_at':
+                        return [cc.evaluate_at(list(x), i) for i in range(len(outs))]
+                    if entry == 'evaluate':
+                        return list(cc.evaluate(list(x)))
+                    if entry == 'evaluate_circuit':
+                        r = cc.evaluate_circuit(a)
+                        return [r[o] for o in cc.outputs]
+                    if entry == 'evaluate_full_circuit':
+                        r = cc.evaluate_full_circuit(a)
+                        return [r[l] for l in sorted(cc.gates)]
+                    r = cc.evaluate_circuit_outputs(a)
+                    return [r[o] for o in cc.outputs]
+
+                try:
+                    ask(c)
+                    if not _mutate(c, n, gates, labs, how):
+                        break
+                    acc.transitions += 2
+                    acc.traces += 1
+                    got = ask(c)
+                except Exception as e:  # noqa: BLE001
+                    acc.violation(f'{entry}/raises-after-mutation-{type(e).__name__}', case, repr(e)[:200])
+                    continue
+                net2 = refmodel.abstract(c)
+                ref2 = net2.tables()
+                keys = sorted(net2.gates) if entry == 'evaluate_full_circuit' else net2.outputs
+                want = [bool((ref2[l] >> _row(net2, x)) & 1) for l in keys]
+                if [v for v in got] != want or not all(_is_bool(v) for v in got):
+                    acc.violation(f'{entry}/stale-answer-after-mutation', case, f'got {got} expected {want}')
+            else:
+                continue
+            break
+
+
+def _row(net, x):
+    """row index of value vector x (positional over net.inputs) in the reference tables"""
+    n = len(net.inputs)
+    asg = refmodel.assignments(n)
+    return asg.index(tuple(bool(b) for b in x))
+
+
 def run_task(task, acc):
     kind = task['kind']
     if kind == 'ops':
         check_ops(acc)
+    elif kind == 'wideops':
+        from vmc.props import c15
+
+        c15.check_wide_ops(acc, boolean_only=True)
+    elif kind == 'deep':
+        check_deep(acc, task['pattern'], task['L'], task['storage'])
     elif kind == 'tables':
         check_tables(acc)
     elif kind == 'circ':
         alpha = ALPHAS[task['alpha']]
         for gates in space.enum_gates(task['n'], task['k'], alpha, space.prefix_from_task(task)):
             check_circuit(task['n'], gates, acc)
+    elif kind == 'requery':
+        alpha = ALPHAS[task['alpha']]
+        for gates in space.enum_gates(task['n'], task['k'], alpha, space.prefix_from_task(task)):
+            check_requery(task['n'], gates, acc)
     elif kind == 'perm':
         alpha = ALPHAS[task['alpha']]
         for gates in space.enum_gates(task['n'], task['k'], alpha, space.prefix_from_task(task)):
@@ -501,6 +678,15 @@ def run_task(task, acc):
 def replay(case, acc):
     if 'task' in case:
         return run_task(case['task'], acc)
+    if 'deep_chain' in case:
+        return check_deep(acc, case['deep_chain'], case['length'], case['storage'])
+    if 'requery' in case:
+        n, gates, _ = space.spec_from_json(case)
+        return check_requery(n, gates, acc)
+    if 'arity' in case and 'operands' in case and isinstance(case['operands'], str):
+        from vmc.props import c15
+
+        return c15.check_wide_ops(acc, boolean_only=True)
     if 'bench' in case or 'perm_of' in case or 'labels' in case:
         # re-run the permutation family this text came from is not recoverable from the
         # text alone; evaluate the text directly against the reference parser-free model
